@@ -216,16 +216,27 @@ func (c *Certificate) isValid(certType int, currentChain []*Certificate, opts *V
 		return CertificateInvalidError{c, Expired}
 	}
 	if len(c.PermittedDNSDomains) > 0 {
-		ok := false
-		for _, constraint := range c.PermittedDNSDomains {
-			ok = matchNameConstraint(opts.DNSName, constraint)
-			if ok {
-				break
-			}
+		// The constraint applies to the DNS names of the certificate being
+		// verified (RFC 5280, 4.2.1.10). A leaf without any is matched against
+		// the requested name through its common name, so that name is checked.
+		var names []string
+		if len(currentChain) > 0 && len(currentChain[0].DNSNames) > 0 {
+			names = currentChain[0].DNSNames
+		} else if len(opts.DNSName) > 0 {
+			names = []string{opts.DNSName}
 		}
+		for _, name := range names {
+			ok := false
+			for _, constraint := range c.PermittedDNSDomains {
+				ok = matchNameConstraint(name, constraint)
+				if ok {
+					break
+				}
+			}
 
-		if !ok {
-			return CertificateInvalidError{c, CANotAuthorizedForThisName}
+			if !ok {
+				return CertificateInvalidError{c, CANotAuthorizedForThisName}
+			}
 		}
 	}
 
